@@ -37,6 +37,18 @@ class Boom(Exception):
         return (Boom, (self.label,))
 
 
+class ExcResult(Exception):
+    """An exception object that a task RETURNS as its (successful) result - e.g. a validation task
+    reporting what it found.  Compares by content so that a copy that went through a cache or a
+    process boundary equals the original."""
+
+    def __eq__(self, other):
+        return type(other) is ExcResult and other.args == self.args
+
+    def __hash__(self):
+        return hash(('ExcResult', self.args))
+
+
 class ChildKilled(BaseException):
     """Raised inside a virtual worker (E3) at the instant it is killed; vmp discards everything
     the unwinding produces afterwards (a SIGKILL runs no finally clause)."""
@@ -348,6 +360,10 @@ def _run(self):
     if self.context is not None and self.context.get('_return_self'):
         value = value + (self,)          # a result that references the task object itself
     WORLD.rec('end', k)
+    if k[0] == 'TZ':
+        return None                # run for its side effects only
+    if k[0] == 'TE':
+        return ExcResult(value)    # an exception object as an ordinary result
     return value
 
 
@@ -482,9 +498,11 @@ TS = labtech.task(type('TS', (TB,), {'__annotations__': {'ext': Any}, 'ext': Non
                                      'EXTRA_FIELDS': ('ext',)}))
 
 TW = _mk('TW', mlflow_run=True)         # every execution is wrapped in an mlflow run
+TZ = _mk('TZ')                          # a task whose result is None
+TE = _mk('TE')                          # a task whose result is an exception object (returned, not raised)
 
-TYPES = {c.__name__: c for c in (TA, TB, TC, TD, TN, TM, TF, TP, TJ, T2, TG, TX, TH, TK, TC1, TC2, TL, TFN, TS, TW)}
+TYPES = {c.__name__: c for c in (TA, TB, TC, TD, TN, TM, TF, TP, TJ, T2, TG, TX, TH, TK, TC1, TC2, TL, TFN, TS, TW, TZ, TE)}
 # the limits and cacheability the *declarations above* ask for - never read back from labtech
 MAX_PARALLEL = {'TA': None, 'TB': 1, 'TC': 2, 'TD': 3, 'TN': None, 'TM': 1, 'TF': None, 'TP': None, 'TJ': None, 'T2': None,
-                'TG': None, 'TX': None, 'TH': None, 'TK': 2, 'TC1': 2, 'TC2': 2, 'TL': 1, 'TFN': None, 'TS': None, 'TW': None}
+                'TG': None, 'TX': None, 'TH': None, 'TK': 2, 'TC1': 2, 'TC2': 2, 'TL': 1, 'TFN': None, 'TS': None, 'TW': None, 'TZ': None, 'TE': None}
 CACHEABLE = {n: n not in ('TN', 'TM', 'TK', 'TFN') for n in TYPES}
